@@ -14,7 +14,7 @@ MODULES = {
     'aiuti.itertools': 'aiuti/itertools.py',
     'aiuti.parsing': 'aiuti/parsing.py',
 }
-CONTRACT_MODULES = ['contracts.filelock']
+CONTRACT_MODULES = ['contracts.filelock', 'contracts.pure', 'contracts.gather', 'contracts.decorators', 'contracts.cache', 'contracts.batcher', 'contracts.buffer', 'contracts.bridges']
 
 
 def load_modules():
@@ -60,10 +60,55 @@ def run_task(name):
     return d
 
 
-def run_tasks(names, procs=None):
-    procs = procs or min(16, max(1, len(names)))
-    if len(names) == 1 or os.environ.get('PYVC_SERIAL'):
+def _child(name, conn):
+    try:
+        conn.send(run_task(name))
+    finally:
+        conn.close()
+
+
+TASK_TIMEOUT_S = int(os.environ.get('PYVC_TASK_TIMEOUT_S', '600'))
+
+
+def run_tasks(names, procs=16):
+    """One process per task, at most `procs` at a time, each under a hard wall-clock limit: a task
+    that does not finish is reported as undecided (never as a violation)."""
+    if os.environ.get('PYVC_SERIAL'):
         return [run_task(n) for n in names]
+    from .engine import FunctionReport
     ctx = mp.get_context('fork')
-    with ctx.Pool(procs) as pool:
-        return pool.map(run_task, names, chunksize=1)
+    pending = list(names)
+    running = {}
+    results = {}
+    while pending or running:
+        while pending and len(running) < procs:
+            n = pending.pop(0)
+            a, b = ctx.Pipe(duplex=False)
+            p = ctx.Process(target=_child, args=(n, b))
+            p.start()
+            b.close()
+            running[n] = (p, a, time.time())
+        for n, (p, a, t0) in list(running.items()):
+            if a.poll(0.02):
+                try:
+                    results[n] = a.recv()
+                except EOFError:
+                    rep = FunctionReport(n)
+                    rep.errors.append('worker died without a result')
+                    results[n] = dict(rep.as_dict(), wall_s=round(time.time() - t0, 1))
+                p.join(5)
+                del running[n]
+            elif not p.is_alive():
+                rep = FunctionReport(n)
+                rep.errors.append('worker exited with code %s and no result' % p.exitcode)
+                results[n] = dict(rep.as_dict(), wall_s=round(time.time() - t0, 1))
+                del running[n]
+            elif time.time() - t0 > TASK_TIMEOUT_S:
+                p.kill()
+                p.join(5)
+                rep = FunctionReport(n)
+                rep.unsupported.append(('task exceeded its %ds wall-clock limit (solver did not return)'
+                                        % TASK_TIMEOUT_S, 0))
+                results[n] = dict(rep.as_dict(), wall_s=round(time.time() - t0, 1))
+                del running[n]
+    return [results[n] for n in names]
